@@ -30,6 +30,9 @@ func TestSweep(t *testing.T) {
 		for _, ch := range []int{2, 3, 8} {
 			Oracle.One(t, env, rec, "sweep", &Case{S: e.S.Name, D: e.D.Name, Amps: BAmps[ds], Ch: ch})
 		}
+		// long and wide at once: more channels than 8 and more samples than 2^15 / 2^16
+		Oracle.One(t, env, rec, "sweep", &Case{S: e.S.Name, D: e.D.Name, Amps: BAmps[ds], Pad: 40000, Ch: 12})
+		Oracle.One(t, env, rec, "sweep", &Case{S: e.S.Name, D: e.D.Name, Amps: BAmps[ds], Pad: 70001, Ch: 64, Fix: 1})
 		Oracle.One(t, env, rec, "sweep", &Case{S: e.S.Name, D: e.D.Name, Amps: BAmps[ds], Fix: 3}) // buffers recycled through a pool
 		if ds == 8 {                                                                               // every 8-bit code, alone in short buffers and repeated in long ones
 			all := make([]int64, 256)
